@@ -1372,3 +1372,292 @@ def check_order(ctx, rule, root, a_pats, b_pats, checked=True, a_name=None, b_na
                             f"{' whenever it runs' if weak else (' on every path from the start call' if start else ' on every path')}"
                             if ok else why, where=c.where())
     return allok
+
+
+# ---------------------------------------------------------------------------
+# path-sensitive reachability: conditional constant propagation of bool locals
+# and enum discriminants along paths (a finite product-graph search; no solver)
+
+
+def place_key(p):
+    out = [str(p[0])]
+    for e in p[1:]:
+        if e == "*" or e == "~":
+            continue
+        if isinstance(e, list) and e[0] == "f":
+            out.append(f".{e[1]}")
+        elif isinstance(e, list) and e[0] == "d":
+            out.append(f"@{e[1]}")
+        else:
+            out.append("[]")
+    return "".join(out)
+
+
+class PathExplorer:
+    """Explore the edge-split CFG of one body keeping, per path, the known
+    values of bool locals and the facts learned at branches about selected
+    *origins*: ('call', bb) = the boolean produced by the call at bb (after
+    `?`/await/!), ('discr', placekey) = discriminant of a place.  Infeasible
+    branch combinations on those values are pruned.  Everything not understood
+    is treated as unknown (both edges taken): the search over-approximates the
+    feasible paths, so a rule that finds no bad path is sound w.r.t. feasible
+    paths, and may still report an infeasible one (never the other way)."""
+
+    MAX_STATES = 200000
+
+    def __init__(self, F, body, origins_of_interest=None):
+        self.F = F
+        self.b = body
+        self.sl = F.slicer(body.id)
+        self.interest = origins_of_interest  # None = keep all facts
+        self._origin_cache = {}
+
+    def _keep(self, origin):
+        return self.interest is None or origin in self.interest
+
+    def origin_of_term(self, term):
+        """(origin, negated) of a boolean/discriminant term, or None"""
+        neg = False
+        t = term
+        for _ in range(20):
+            t = strip(t)
+            if isinstance(t, tuple) and t[0] == "un" and t[2] == "Not":
+                neg = not neg
+                t = t[1]
+                continue
+            break
+        if isinstance(t, tuple) and t[0] == "call" and t[3] and t[3][0] == self.b.id:
+            return (("call", t[3][1]), neg)
+        return None
+
+    def _rv_value(self, rv, bb, env):
+        k = rv["k"]
+        if k == "use":
+            o = rv["o"]
+            if o[0] == "k":
+                v = o[1].get("v")
+                if isinstance(v, bool):
+                    return ("c", 1 if v else 0)
+                if isinstance(v, int):
+                    return ("c", v)
+                return None
+            p = o[1]
+            if len(p) == 1 and ("L", p[0]) in env:
+                return env[("L", p[0])]
+            og = self.origin_of_term(self.sl.operand(o, at=bb))
+            if og:
+                return ("r", og[0], og[1])
+            return None
+        if k == "un" and rv["op"] == "Not":
+            o = rv["o"]
+            p = op_place(o)
+            if p is not None and len(p) == 1 and ("L", p[0]) in env:
+                v = env[("L", p[0])]
+                if v[0] == "c":
+                    return ("c", 0 if v[1] else 1)
+                return ("r", v[1], not v[2])
+            og = self.origin_of_term(self.sl.operand(o, at=bb))
+            if og:
+                return ("r", og[0], not og[1])
+            return None
+        if k == "discr":
+            return ("r", ("discr", place_key(rv["p"])), False)
+        return None
+
+    def _apply_block(self, bb, env):
+        """returns new env after the statements of block bb (env is a dict copy)"""
+        blk = self.b.blocks[bb]
+        for s in blk["s"]:
+            l = s["l"]
+            base = l[0]
+            if len(l) == 1:
+                v = self._rv_value(s["r"], bb, env)
+                # a move out of a tracked local ends its tracking
+                rv = s["r"]
+                if rv["k"] == "use" and rv["o"][0] == "m":
+                    p = rv["o"][1]
+                    if len(p) == 1:
+                        env.pop(("L", p[0]), None)
+                if v is not None and (v[0] == "c" or self._keep(v[1]) or True):
+                    env[("L", base)] = v
+                else:
+                    env.pop(("L", base), None)
+            # any write into a place invalidates discriminant facts about it
+            pk = str(base)
+            for key in [k for k in env if k[0] == "F" and k[1][0] == "discr" and
+                        (k[1][1] == pk or k[1][1].startswith(pk + ".") or k[1][1].startswith(pk + "@"))]:
+                # writing a *different* local's temp never matches; writing the base local does
+                del env[key]
+        return env
+
+    def run(self, srcs, targets, avoid=()):
+        """returns list of (target_node, facts_dict, path) for every distinct (target, facts) reached"""
+        b = self.b
+        targets = set(targets)
+        avoid = set(avoid)
+        results = {}
+        start_env = {}
+        seen = set()
+        dq = deque()
+        for s in srcs:
+            st = (s, frozenset(start_env.items()))
+            seen.add(st)
+            dq.append((s, start_env, (s,)))
+        n = 0
+        while dq:
+            node, env, path = dq.popleft()
+            n += 1
+            if n > self.MAX_STATES:
+                results[("overflow",)] = (None, {"overflow": True}, list(path))
+                break
+            if node in avoid:
+                continue
+            if node in targets:
+                facts = {k[1]: v for k, v in env.items() if k[0] == "F"}
+                key = (node, frozenset(facts.items()))
+                if key not in results:
+                    results[key] = (node, facts, list(path))
+                # keep going: other targets may lie beyond
+            succs = []
+            if node < b.n:
+                env2 = self._apply_block(node, dict(env))
+                t = b.blocks[node]["t"]
+                if t["k"] == "switch":
+                    succs = self._switch(node, t, env2)
+                else:
+                    if t["k"] == "call" and "d" in t:
+                        d = t["d"]
+                        env2.pop(("L", d[0]), None)
+                        pk = str(d[0])
+                        for key in [k for k in env2 if k[0] == "F" and k[1][0] == "discr" and
+                                    (k[1][1] == pk or k[1][1].startswith(pk + ".") or k[1][1].startswith(pk + "@"))]:
+                            del env2[key]
+                    succs = [(y, env2) for y in b.succ.get(node, ())]
+            else:
+                succs = [(y, env) for y in b.succ.get(node, ())]
+            for y, e in succs:
+                st = (y, frozenset(e.items()))
+                if st in seen:
+                    continue
+                seen.add(st)
+                dq.append((y, e, path + (y,)))
+        return list(results.values())
+
+    def _switch(self, bb, t, env):
+        b = self.b
+        o = t["o"]
+        p = op_place(o)
+        val = None
+        if p is not None and len(p) == 1:
+            val = env.get(("L", p[0]))
+            if val is None:
+                og = self.origin_of_term(self.sl.operand(o, at=bb))
+                if og:
+                    val = ("r", og[0], og[1])
+            if o[0] == "m":
+                env = dict(env)
+                env.pop(("L", p[0]), None)
+        listed = [int(v) for v, _ in t["vals"]]
+        edges = [(v, b.edge_node(bb, v)) for v in listed] + [("else", b.edge_node(bb, "else"))]
+        is_bool = p is not None and len(p) == 1 and b.locals[p[0]] == "bool"
+        out = []
+        if val is None:
+            return [(e, env) for _, e in edges]
+        if val[0] == "c":
+            c = val[1]
+            for v, e in edges:
+                if (v == c) or (v == "else" and c not in listed):
+                    out.append((e, env))
+            return out
+        origin, neg = val[1], val[2]
+        known = env.get(("F", origin))
+        for v, e in edges:
+            # the fact this edge asserts about the origin
+            if is_bool or origin[0] == "call":
+                truth = (v != 0) if v != "else" else (0 in listed)
+                if v == "else" and 0 not in listed:
+                    truth = False if 1 in listed else None
+                if truth is None:
+                    out.append((e, env))
+                    continue
+                if neg:
+                    truth = not truth
+                fact = ("eq", 1 if truth else 0)
+            else:
+                fact = ("eq", v) if v != "else" else ("ne", tuple(listed))
+            if known is not None:
+                if not _consistent(known, fact):
+                    continue
+                if known[0] == "eq":
+                    out.append((e, env))
+                    continue
+            if self._keep(origin):
+                e2 = dict(env)
+                e2[("F", origin)] = fact if not (known and known[0] == "ne" and fact[0] == "ne") else \
+                    ("ne", tuple(sorted(set(known[1]) | set(fact[1]))))
+                out.append((e, e2))
+            else:
+                out.append((e, env))
+        return out
+
+
+def _consistent(known, fact):
+    if known[0] == "eq" and fact[0] == "eq":
+        return known[1] == fact[1]
+    if known[0] == "eq" and fact[0] == "ne":
+        return known[1] not in fact[1]
+    if known[0] == "ne" and fact[0] == "eq":
+        return fact[1] not in known[1]
+    return True
+
+
+def referent_place(body, operand):
+    """for an operand that is a temp defined once as `&place` / `&mut place` (or a copy of such), the place"""
+    for _ in range(6):
+        p = op_place(operand)
+        if p is None or len(p) != 1:
+            return None
+        ds = body.defs[0].get(p[0], [])
+        if len(ds) != 1 or ds[0][2] != "assign":
+            return None
+        rv = ds[0][3]
+        if rv["k"] == "ref":
+            return rv["p"]
+        if rv["k"] == "use":
+            operand = rv["o"]
+            continue
+        return None
+    return None
+
+
+def predicate_summary(F, fid):
+    """If `fid` is a `fn(&self) -> bool` that returns true exactly on one enum variant of *self
+    (the shape of `matches!(self, Enum::V ..)`), return (adt, variant_name); else None."""
+    b = F.body(fid)
+    if b is None or b.argc < 1:
+        return None
+    true_blocks, false_blocks = [], []
+    for i, blk in enumerate(b.blocks):
+        if blk.get("c") or i not in b.reachable:
+            continue
+        for s in blk["s"]:
+            if s["l"] == [0]:
+                rv = s["r"]
+                c = op_const(rv["o"]) if rv["k"] == "use" else None
+                if c is None or not isinstance(c.get("v"), bool):
+                    return None
+                (true_blocks if c["v"] else false_blocks).append(i)
+    if not true_blocks:
+        return None
+    for bb, t in b.switches():
+        ds = b.discr_source(bb)
+        if not ds or not ds[1] or not ds[2] or ds[0][0] != 1:
+            continue
+        for val, name in ds[2].items():
+            e = b.variant_edge(bb, name)
+            if e is None:
+                continue
+            if all(b.set_dominated(tb, {e}) for tb in true_blocks) and \
+                    all(b.path_avoiding([e], [fb]) is None for fb in false_blocks):
+                return (ds[1], name, val)
+    return None
